@@ -125,10 +125,66 @@ def run_case(prog, tier):
         return "crash:%s@%s" % (c[1], c[2]), "internal exception", {}
 
 
+API_WEIGHTS = [0.0, 0, 1, 1.0, 0.3, (0.2, 0.9)]
+API_SHAPES = ["and", "or", "atom", "facts", "notor"]
+
+
+def api_cases():
+    """ground programs built through the LogicFormula API (weights are plain Python numbers / pairs, not
+    parsed Constants): two atoms with every pair of weights x formula shape"""
+    for shape in API_SHAPES:
+        for w1 in API_WEIGHTS:
+            for w2 in API_WEIGHTS:
+                yield {"shape": shape, "w": [w1, w2]}
+
+
+def compile_api(case):
+    from problog.formula import LogicFormula, LogicDAG
+    from problog.logic import Term
+    from problog.cnf_formula import CNF
+    from problog.ddnnf_formula import DDNNF
+
+    lf = LogicFormula()
+    ws = [tuple(w) if isinstance(w, list) else w for w in case["w"]]
+    a = lf.add_atom(1, ws[0], name=Term("a"))
+    b = lf.add_atom(2, ws[1], name=Term("b"))
+    shape = case["shape"]
+    if shape == "and":
+        q = lf.add_and([a, b])
+    elif shape == "or":
+        q = lf.add_or([a, b])
+    elif shape == "notor":
+        q = lf.add_or([-a, b])
+    else:
+        q = a
+    lf.add_name(Term("q"), q, lf.LABEL_QUERY)
+    if shape == "facts":
+        lf.add_name(Term("b"), b, lf.LABEL_QUERY)
+    dag = LogicDAG.create_from(lf)
+    cnf = CNF.create_from(dag)
+    nnf = DDNNF.create_from(cnf)
+    return cnf, nnf
+
+
+def run_api_case(case, tier):
+    try:
+        with watchdog(30):
+            cnf, nnf = compile_api(case)
+            return check_circuit(cnf, nnf, MAX_VARS[tier])
+    except WatchdogTimeout:
+        return None, "timeout", {}
+    except Exception as exc:  # noqa
+        c = classify_exception(exc)
+        if c[0] == "error":
+            return None, "error:" + c[1], {}
+        return "crash:%s@%s" % (c[1], c[2]), "internal exception", {}
+
+
 class C10(Prop):
     pid = "C10"
     title = "Compiled d-DNNF is a valid, equivalent circuit"
-    technique = ("every CNF produced from the program grammars is compiled by the bundled dsharp through the real "
+    technique = ("every CNF produced from the program grammars (and from a small grammar of formulas built through the "
+                 "LogicFormula API with plain Python weights) is compiled by the bundled dsharp through the real "
                  "DDNNF.create_from; decomposability and smoothness by variable-set computation on every node, determinism, "
                  "model equivalence and label correctness by enumerating ALL assignments of the CNF variables")
     rule = ("states = CNFs (one per generated program with evidence/queries); transitions = assignments enumerated; "
@@ -139,10 +195,29 @@ class C10(Prop):
     budget = {"quick": 300, "thorough": 2400}
 
     def shards(self, tier):
-        return [[fam, mod, r] for fam, mod in self.families[tier] for r in range(mod)]
+        return [["API", 1, 0]] + [[fam, mod, r] for fam, mod in self.families[tier] for r in range(mod)]
+
+    def run_api(self, tier, acc):
+        for case in api_cases():
+            sym, detail, st = run_api_case(case, tier)
+            acc.evaluations += 1
+            acc.states += 1
+            acc.traces += 1
+            acc.transitions += st.get("assignments", 0)
+            acc.outcomes[sym or detail.split(":")[0] or "ok"] += 1
+            acc.sample({"family": "API", "case": case}, limit=1)
+            if sym:
+                c2 = dict(case, kind="api")
+                extra = None
+                if sym.startswith("crash:"):
+                    c2, extra = {"site": sym}, c2
+                acc.violation(sym, c2, extra=extra, expected="valid d-DNNF equivalent to the CNF", observed=detail,
+                              what="%s: API-built formula %s [%s]" % (sym, case, detail))
 
     def run_shard(self, shard, tier, acc):
         fam, mod, rem = shard
+        if fam == "API":
+            return self.run_api(tier, acc)
         for idx, prog0 in streams.shard_stream(fam, tier, mod, rem):
           for prog in ([prog0, dict(prog0, keep_duplicates=True)] if fam == "F1.1dup" else [prog0]):
             if acc.expired():
@@ -171,6 +246,9 @@ class C10(Prop):
                               what="%s: %s [%s]" % (sym, program_text(small), d2))
 
     def replay(self, case):
+        if case.get("kind") == "api":
+            sym, detail, st = run_api_case(case, "thorough")
+            return dict(ok=sym is None, expected="valid d-DNNF equivalent to the CNF", observed={"symptom": sym, "detail": detail})
         sym, detail, st = run_case(case["ast"], "thorough")
         return dict(ok=sym is None, expected="valid d-DNNF equivalent to the CNF", observed={"symptom": sym, "detail": detail})
 
